@@ -103,6 +103,10 @@ def run(ctx):
     stats = {k: stats[k] + stats2[k] for k in stats}
     v = cc.validate(ctx, rows, info, byz, 9, "A", dedupe=True)
     account(v, rows, "2+1 powers 2:2:1")
+    prow, pv = cc.plan_from_drift_net(ctx, binp, rows, v["drift"], inp2, info, byz, 9, "A")
+    if pv is not None:
+        account(pv, prow, "2+1, continuations planned by TLC from the observed drifting state")
+        cov["drift_planning_2+1"] = {"schedules": pv["runs"], "property_failures": len(pv["viol"])}
     cov["configs"].append({"config": "2 correct + 1 Byzantine, powers 2:2:1, rounds 0..%d" % mr, "exhaustive": True,
                            "tlc_states": rA.distinct, "graph_nodes_replayed": graph_nodes, "schedules": len(scheds),
                            "simulated_behaviours_rounds_0_2": len(sims),
@@ -149,6 +153,10 @@ def run(ctx):
         rows, stats = cc.run_driver(ctx, binp, inp, tag)
         v = cc.validate(ctx, rows, info3, byz3, 9, tag, dedupe=True)
         account(v, rows, label)
+        prow, pv = cc.plan_from_drift_net(ctx, binp, rows, v["drift"], inp, info3, byz3, 9, tag)
+        if pv is not None:
+            account(pv, prow, label + ", continuations planned by TLC from the observed drifting state")
+            cov["drift_planning_" + tag] = {"schedules": pv["runs"], "property_failures": len(pv["viol"])}
         cov["configs"].append({"config": label + ", rounds 0..%d" % mr3, "exhaustive": False,
                                "simulated_behaviours": len(scheds) - len(attacks), "attack_schedules": [a["name"] for a in attacks],
                                "driver": stats, "events_validated_after_prefix_dedupe": v["events"]})
